@@ -71,13 +71,13 @@ func c20Clones(c *Ctx, p *Prog) map[string]bool {
 		pr := ic.queue[0]
 		ic.queue = ic.queue[1:]
 		if origin(pr[0]).Pkg == p.Times {
-			cmp(pr[0], pr[1], pr[0].Name())
+			cmp(pr[0], pr[1], nm(pr[0]))
 		}
 	}
 	// package variables matched (unitMap, errLeadingInt)
 	var gl []string
 	for a, b := range ic.globals {
-		gl = append(gl, a.Name()+"~"+b.Pkg.Pkg.Name()+"."+b.Name())
+		gl = append(gl, nm(a)+"~"+nm(b.Pkg.Pkg)+"."+nm(b))
 	}
 	sort.Strings(gl)
 	r.Extra["matched_package_variables"] = gl
@@ -156,7 +156,7 @@ func c20Budget(c *Ctx, p *Prog, copies map[string]bool) {
 	var order []k3
 	for i := range a.obls {
 		o := a.obls[i]
-		k := k3{o.Fn.Name(), o.Pos, o.Kind}
+		k := k3{nm(o.Fn), o.Pos, o.Kind}
 		if x, in := agg[k]; in {
 			if !o.OK {
 				x.OK = false
